@@ -410,6 +410,25 @@ class P(Prop):
         return None
 
     # ------------------------------------------------------------------------------------------
+    @staticmethod
+    def read_series_records(objs):
+        """the per-point fuel record of every genset (what the series export reads): total, mass fractions, CO2, again"""
+        out = []
+        for o in objs:
+            if type(o).__name__ != "Genset":
+                continue
+            try:
+                rec = o.get_fuel_cons_load_bsfc_from_power_out_generator_kw().engine.fuel_flow_rate_kg_per_s
+                before = [float(x) for x in np.atleast_1d(rec.total_fuel_consumption)]
+                f1 = [[float(x) for x in np.atleast_1d(f.mass_or_mass_fraction)] for f in rec.fuel_by_mass_fraction.fuels]
+                _ = rec.get_total_co2_emissions()
+                f2 = [[float(x) for x in np.atleast_1d(f.mass_or_mass_fraction)] for f in rec.fuel_by_mass_fraction.fuels]
+                after = [float(x) for x in np.atleast_1d(rec.total_fuel_consumption)]
+            except (ValueError, StopIteration, AttributeError):
+                continue
+            out.append({"name": o.name, "before": before, "after": after, "frac1": f1, "frac2": f2})
+        return out
+
     def do_queries(self, res, qs):
         from feems.fuel import FuelConsumerClassFuelEUMaritime as C
         for q in qs:
@@ -453,11 +472,12 @@ class P(Prop):
                         s1 = sysrun.snap(res)
                         self.do_queries(res, case["queries"][k])
                         s2 = sysrun.snap(res)
+                        reads = self.read_series_records(objs) if case["queries"][k] else []
                         sysm.do_power_balance_calculation()
                         s3 = sysrun.snap(sysm.get_fuel_energy_consumption_running_time(fuel_specified_by=FuelSpecifiedBy[spec]))
                         _, _, fres = sysrun.run_electric(case["plant"], inp, spec)
                         obs["runs"].append({"pin_set": pin_set, "res": outs, "rated": [float(o.rated_power) for o in objs],
-                                            "first": s1, "after_queries": s2, "repeat": s3, "fresh": sysrun.snap(fres)})
+                                            "first": s1, "after_queries": s2, "repeat": s3, "fresh": sysrun.snap(fres), "series_reads": reads})
                         held.append(res)
                     self.combine_held(held, obs)
                 elif st == "mechanical":
@@ -575,6 +595,12 @@ class P(Prop):
                 return f"calculation no. {k + 1} on the reused object differs from the same calculation on a fresh object: {d[:3]}"
             if "after_queries" in r and r["after_queries"] != r["first"]:
                 return f"calculation no. {k + 1}: reading results changed them"
+            for rd in r.get("series_reads") or []:
+                if rd["before"] != rd["after"] and not any(x != x for x in rd["before"] + rd["after"]):
+                    return (f"calculation no. {k + 1}: reading mass fractions / CO2 of the per-point fuel record of {rd['name']} changed "
+                            f"its fuel flow series from {rd['before']} to {rd['after']}")
+                if rd["frac1"] != rd["frac2"] and not any(x != x for f_ in rd["frac1"] + rd["frac2"] for x in f_):
+                    return f"calculation no. {k + 1}: two reads of the mass fractions of {rd['name']}'s per-point record differ"
             if "repeat" in r:
                 d = sysrun.figures_diff(r["first"], r["repeat"])
                 if d:
